@@ -163,6 +163,8 @@ def check_unsigned_sub(ctx, prog, R):
     floor = 28 if ("vf_vu64" in feats and "htx_bitmap" in feats) else (26 if "vf_vu64" in feats else 25)
     ctx.floor("unsigned-sub", "unsigned subtraction sites in the lib", n, floor)
     ctx.sample({"rule": "unsigned-sub", "classification": classes})
+    from . import poscontrol
+    poscontrol.sub_control(ctx)
     # preconditions of triage entries
     if "tables-nonempty" in pre_needed:
         _pre_tables(ctx, prog, R)
